@@ -19,7 +19,7 @@ FLOORS = {"groups": 3000, "objects_unpickled": 8000, "kind:struct": 1500, "kind:
           "structs_with_2plus_dynamic_fields": 400, "pairs_sharing_checked": 4000, "pairs_shared": 1000,
           "pairs_not_shared": 1000, "writes_on_copy": 5000, "writes_on_original": 2000,
           "allocator_walk_steps": 10000, "new_objects_in_unpickled_buffer": 2000, "reads": 100000,
-          "buffers_with_holes": 500, "kindbuf:bytearray": 500, "alias_handles_checked": 1500, "kernel_calls_on_unpickled_objects": 60}
+          "buffers_with_holes": 500, "kindbuf:bytearray": 500, "alias_handles_checked": 1500, "kernel_calls_on_unpickled_objects": 60, "cross_process_unpickles": 16}
 RULE = ("groups of 1-4 objects (generated importable Struct / Array-subclass types with strings, nested arrays, "
         "references; generated HybridClass families) spread over 1-3 buffers of both CPU kinds with live neighbours, "
         "freed holes and growth history; pickle.loads(pickle.dumps(group, protocol 0..5)); oracle: every object "
@@ -132,6 +132,37 @@ def chunks_of(buf):
     return [(int(c.start), int(c.end)) for c in buf.chunks if c.end > c.start]
 
 
+def setup(w):
+    """Once per worker: a pickle written here is read by ANOTHER interpreter started with another hash seed."""
+    import json
+    import os
+    import subprocess
+    import sys
+    from xv import REPO, VERIF_DIR, DEPS
+    from xv import pickle_fixtures as fx
+    for k in range(2):
+        objs, vals = fx.make(1000 * w.shard + k)
+        proto = [2, 4, 5, 0][(w.shard + k) % 4]
+        path = os.path.abspath(f"xproc_{k}.pkl")
+        with open(path, "wb") as f:
+            pickle.dump(objs, f, protocol=proto)
+        env = dict(os.environ, PYTHONPATH=os.pathsep.join([REPO, VERIF_DIR, DEPS]), PYTHONHASHSEED=str(101 + 7 * w.shard + k))
+        r = subprocess.run([sys.executable, "-m", "xv.pickle_fixtures", path], env=env, capture_output=True, text=True, timeout=300)
+        w.count("cross_process_unpickles")
+        line = [l for l in r.stdout.splitlines() if l.startswith("XVJSON")]
+        info = dict(cross_process=True, protocol=proto, seed=1000 * w.shard + k)
+        if r.returncode != 0 or not line:
+            w.violation("cross-process-unpickle-failed", (r.stderr or r.stdout)[-1200:], info)
+            continue
+        got = json.loads(line[0][6:])
+        after = got.pop("after")
+        want = json.loads(json.dumps(vals))
+        if got != want:
+            w.violation("cross-process-unpickled-values-differ", f"read {got!r:.500} expected {want!r:.500}", info)
+        elif after[:2] != [77, 1.0] or after[2] is not True:
+            w.violation("cross-process-unpickled-object-not-usable", f"{after}", info)
+
+
 def run_case(w, rng):
     nb = rng.choice([1, 1, 2, 2, 3])
     envs = []
@@ -179,7 +210,7 @@ def run_case(w, rng):
                 ki, kit = rng.choice(cand)
                 kfn, kft = rng.choice([(fn, ft) for fn, ft in kit.t["f"] if ft["k"] == "sc"])
                 try:
-                    kctx = xo.ContextCpu()
+                    kctx = kit.obj._buffer.context if rng.random() < 0.6 else xo.ContextCpu()
                     kctx._compile_kernels_info = False
                     kctx.add_kernels(kernels=kit.cls._gen_kernels(), extra_compile_args=("-O0", "-w"), extra_link_args=())
                     v0 = kit.vg.scalar(kft["t"])
@@ -409,6 +440,8 @@ def run_case(w, rng):
             # the context of an unpickled buffer still hands out buffers
             try:
                 ctx = nbuf.context
+                str(ctx)
+                ctx.omp_num_threads
                 b2 = ctx.new_buffer(capacity=64)
                 o = b2.allocate(8)
                 if b2 not in ctx.buffers:
